@@ -342,8 +342,22 @@ func TestCheck(t *testing.T) {
 		}
 		types[d] = formattedTypes(d)
 	}
+	// PostgreSQL time types in the inspector's spelling x every precision
+	for _, tn := range []string{"timestamp without time zone", "timestamp with time zone", "time without time zone", "time with time zone", "timestamp", "timestamptz", "time", "timetz"} {
+		for p := -1; p <= 6; p++ {
+			c := ICase{T: tn, Prec: p}
+			ok := ev.Each(col, "inspected-spellings", c, func(c ICase) error {
+				col.Class("postgres/inspected-time-spelling")
+				col.NonTrivial(fmt.Sprintf("inspected|%s|%d", c.T, c.Prec))
+				return checkInspected(c)
+			}, ev.Matcher[ICase]{})
+			if !ok {
+				return
+			}
+		}
+	}
 	col.Exhaustive = true
-	col.ExhScope = "type grid: every TypeSpec of the three registries x the parameter grid stated in rule"
+	col.ExhScope = "type grid: every TypeSpec of the three registries x the parameter grid stated in rule; PostgreSQL time types in the inspector's spelling x precision absent/0..6"
 	checkS := func(c SCase) error {
 		err := checkSchema(c)
 		var ts []string
@@ -395,6 +409,10 @@ func TestCheck(t *testing.T) {
 }
 
 func TestReplay(t *testing.T) {
+	if strings.HasPrefix(ev.ReplaySub(), "inspected") {
+		ev.ReplayFile(t, "C15", func(_ string, c ICase) error { return checkInspected(c) })
+		return
+	}
 	if strings.HasPrefix(ev.ReplaySub(), "type") {
 		ev.ReplayFile(t, "C15", func(_ string, c TCase) error { _, err := checkType(c); return err })
 		return
